@@ -380,7 +380,10 @@ class Executor(ExprMixin, StmtMixin, LoopMixin):
                 key = self.c.calls.get(key, key)
                 if key in api.CONTRACTS:
                     return self.call_contract(api.CONTRACTS[key], args, kwargs, st, node)
-            # 2. a trusted model (libraries, builtins)
+            # 2. a trusted model (libraries, builtins); contract-local models take precedence
+            if q in self.c.models:
+                self.assumptions_used.add(f"{q} (model local to {self.c.key})")
+                return self.c.models[q](self, st, args, kwargs, node)
             m = models.lookup(q, f.obj)
             if m is not None:
                 self.assumptions_used.add(m.name)
